@@ -266,6 +266,17 @@ fn header_agrees(ctx: &mut Ctx, x: &[u8]) -> ScResult {
         }
         _ => {}
     }
+    // ... and the same when the 20-byte prefix is all the full parser is given (the header has
+    // arrived, the body has not): it calls the prefix non-STUN exactly if the header decoder refuses it
+    if x.len() > 20 {
+        let alone = g("C17", "Message::from_bytes", || Message::from_bytes(&x[..20]).map(|_| ()))?;
+        let alone_not_stun = matches!(alone, Err(StunParseError::NotStun));
+        if hdr.is_ok() == alone_not_stun {
+            let v = Violation::new("C17", "header_decoder_agrees", if hdr.is_ok() { "accepts_non_stun_prefix" } else { "refuses_stun_header_prefix" }, format!("MessageHeader::from_bytes answers {:?} for a 20-byte prefix for which Message::from_bytes (given only those 20 bytes) answers {alone:?}", hdr.as_ref().map(|_| "Ok").map_err(|e| format!("{e:?}"))));
+            ev!(ctx, "  !! {} {}", v.message, hex(&x[..20]));
+            return Err(v);
+        }
+    }
     if let Ok((ty, tid, len)) = &hdr {
         // the same fields as encoded in the bytes
         let t = ((x[0] as u16) << 8) | x[1] as u16;
@@ -1032,6 +1043,36 @@ fn judge_exposure(ctx: &mut Ctx, x: &[u8], lc: &MessageIntegrityCredentials) -> 
                     return Err(v);
                 }
                 ctx.st.inc("probe.validate_integrity_ok");
+            }
+            // policing is a lookup too: what `check_attribute_types` says about a *request* may only
+            // depend on exposed attributes — a type that is present only hidden behind an integrity
+            // attribute is neither reported as unknown nor counted as present
+            if msg.has_class(MessageClass::Request) {
+                let exposed: Vec<u16> = view.exposed.iter().map(|&i| view.all[i].ty).collect();
+                let hidden: Vec<u16> = view.all.iter().map(|a| a.ty).filter(|t| !exposed.contains(t)).collect();
+                if !hidden.is_empty() {
+                    ctx.st.inc("probe.policing_with_hidden_attribute");
+                    let unknown = g("C10", "Message::check_attribute_types", || {
+                        Message::check_attribute_types(msg, &[], &[]).map(|b| b.build()).and_then(|bytes| Message::from_bytes(&bytes).ok().and_then(|m| m.raw_attribute(AttributeType::new(0x000a)).map(|a| a.value.chunks(2).filter(|c| c.len() == 2).map(|c| ((c[0] as u16) << 8) | c[1] as u16).collect::<Vec<u16>>())))
+                    })?;
+                    if let Some(list) = unknown {
+                        if let Some(t) = list.iter().find(|t| hidden.contains(t)) {
+                            let v = Violation::new("C10", "policing_sees_exposed_only", &tail_names(view), format!("check_attribute_types lists type {t:#06x} as unknown; it occurs only hidden behind the first integrity attribute ({})", tail_names(view)));
+                            ev!(ctx, "  !! {}", v.message);
+                            return Err(v);
+                        }
+                    }
+                    let all_types: Vec<AttributeType> = view.all.iter().map(|a| AttributeType::new(a.ty)).collect();
+                    for h in &hidden {
+                        let req = [AttributeType::new(*h)];
+                        let verdict = g("C10", "Message::check_attribute_types", || Message::check_attribute_types(msg, &all_types, &req).is_some())?;
+                        if !verdict {
+                            let v = Violation::new("C10", "policing_sees_exposed_only", &tail_names(view), format!("check_attribute_types treats required type {h:#06x} as present; it occurs only hidden behind the first integrity attribute ({})", tail_names(view)));
+                            ev!(ctx, "  !! {}", v.message);
+                            return Err(v);
+                        }
+                    }
+                }
             }
             // FINGERPRINT always exposed
             if view.all.last().map(|a| a.ty) == Some(FP) && !msg.has_attribute(AttributeType::new(FP)) {
